@@ -114,6 +114,8 @@ func doDump(w *World, what string) {
 		dumpMapRanges(w)
 	case what == "nondet":
 		dumpNondet(w)
+	case what == "exportfilters":
+		dumpExportFilters(w)
 	case what == "blockloops":
 		br := blockReachable(w)
 		var names []string
